@@ -21,7 +21,7 @@ RULE = ("Hypothesis-generated 3D mesh (1-3 nested levels, mixed extents, non-zer
         "nothing written; a pair listing the same boxes in another header order may be refused (nothing written) or "
         "combined correctly. Non-trivial = the two layouts differ or one is non-monotone, or a selection drops / "
         "reorders fields, or a negative case.")
-ASSUMPTIONS = ["vars1 is a space-separated string and vars2 a list: the two argument shapes the function accepts"]
+ASSUMPTIONS = ["selections are given as a space-separated string or a list on either side, through the function and through the command line"]
 
 
 @st.composite
@@ -53,7 +53,8 @@ def cases(draw, tier="quick"):
     # task start / completion orders of the per-file workers of each level (empty = submission order)
     sched = dict(exec=[draw(code) for _ in range(nlev)], comp=[draw(code) for _ in range(nlev)], lazy=draw(st.booleans()))
     return dict(spec=spec, fields2=f2, layout2=layout2, payload2=payload2, vars1=vars1, vars2=vars2, neg=neg,
-                same_layout=draw(st.sampled_from([False, False, False, True])), sched=sched)
+                same_layout=draw(st.sampled_from([False, False, False, True])), sched=sched,
+                how=draw(st.sampled_from(["api", "api", "cli", "api_swapped_types"])))
 
 
 def compact(case):
@@ -146,9 +147,22 @@ def check_case(case, ctx):
     from .. import pools
     sched = pools.set_schedule(case.get("sched"))
     try:
-        pck1 = qcall(PlotfileCooker, "in1")
-        pck2 = qcall(PlotfileCooker, "in2")
-        qcall(combine, pck1, pck2, pltout="out", vars1=vars1, vars2=vars2)
+        how = case.get("how", "api")
+        ctx.label("how:" + how)
+        if how == "cli":
+            import amr_kitchen.combine.cli as cli
+            argv = ["combine", "-p1", "in1", "-p2", "in2", "-o", "out"]
+            argv += ["-v1", vars1] if vars1 is not None else []
+            argv += ["-v2", " ".join(vars2)] if vars2 is not None else []
+            common.run_main(cli.main, argv)
+        else:
+            pck1 = qcall(PlotfileCooker, "in1")
+            pck2 = qcall(PlotfileCooker, "in2")
+            if how == "api_swapped_types":      # a list for the first side, a string for the second
+                qcall(combine, pck1, pck2, pltout="out", vars1=None if vars1 is None else vars1.split(),
+                      vars2=None if vars2 is None else " ".join(vars2))
+            else:
+                qcall(combine, pck1, pck2, pltout="out", vars1=vars1, vars2=vars2)
         raised = None
     except Exception as e:
         raised = e
